@@ -73,7 +73,7 @@ def _num(text, ref):
 CLAIMED["C04"] = _num("Rotation kernel over the enumerated lattice of orders, heights 1..6, three boxes, five deterministic particle sets with face/edge/cluster motifs, groupings and executors (OpenMP under named schedules of the mock runtime); error vs a long double direct sum below per-order bounds, shrinking with the order, stable to rounding across groupings/executors, linear in the charges.", "DESIGN.md section 5 C04, section 12")
 CLAIMED["C05"] = _num("Uniform kernel over the same lattice (orders 3..8), including delivery of a parent's children in several batches (block size 1) vs one.", "DESIGN.md section 5 C05, section 12")
 
-CLAIMED[] = {"engine": "sanitizer rebuilds of all drivers", "text": "The drivers of the other checks (trees, histories, memory blocks, target/source, periodic, index algebra, schedule explorer for four executors) rebuilt with ASan+UBSan+LSan and assertions on, run over fixed subsets of their spaces; any report, assertion, fatal signal, hang or leak is attributed to the executing case.", "design_ref": "DESIGN.md section 5 C15, section 12",
+CLAIMED["C15"] = {"engine": "sanitizer rebuilds of all drivers", "text": "The drivers of the other checks (trees, histories, memory blocks, target/source, periodic, index algebra, schedule explorer for four executors) rebuilt with ASan+UBSan+LSan and assertions on, run over fixed subsets of their spaces; any report, assertion, fatal signal, hang or leak is attributed to the executing case.", "design_ref": "DESIGN.md section 5 C15, section 12",
     "note": "trusted: gcc 12 sanitizer runtimes; tasks atomic; only the enumerated cases are executed", "technique": "bounded-exhaustive enumeration / schedule exploration re-executed under address, leak and undefined-behaviour sanitizers as the oracle"}
 
 _pending = "check not built yet in this round (planned, see DESIGN.md section 11); not claimed until it runs end to end"
